@@ -56,6 +56,13 @@ def patterns():
     P["res-status-line-spaces"] = (lambda k: (rq, b"HTTP/1.1" + b" " * k + b"200 OK\r\nContent-Length: 0\r\n\r\n"), "res", None)
     P["res-header-whitespace"] = (lambda k: (rq, RES + b"H:" + b" " * k + b"v\r\nContent-Length: 0\r\n\r\n"), "res", None)
     P["res-close-delimited-lines"] = (lambda k: (rq, RES + b"\r\n" + b"line\r\n" * k), "res", None)
+    P["res-encoding-separators"] = (lambda k: (rq, RES + b"Content-Encoding: a" + b"," * k + b"b\r\nContent-Length: 0\r\n\r\n"), "res", None)
+    P["res-encoding-blank-tokens"] = (lambda k: (rq, RES + b"Content-Encoding: " + b" ," * k + b"identity\r\nContent-Length: 0\r\n\r\n"), "res", None)
+    P["res-content-type-params"] = (lambda k: (rq, RES + b"Content-Type: text/html" + b";" * k + b"charset=x\r\nContent-Length: 0\r\n\r\n"), "res", None)
+    P["req-cookie-separators"] = (lambda k: (REQ_HEAD % b"" + b"Cookie: a=b" + b";" * k + b"c=d\r\n\r\n", b""), "req", None)
+    P["req-query-separators"] = (lambda k: (REQ_HEAD % (b"?a=b" + b"&" * k + b"c=d") + b"\r\n", b""), "req", None)
+    P["req-content-type-params"] = (lambda k: (b"POST / HTTP/1.1\r\nHost: a\r\nContent-Type: multipart/form-data" + b";" * k + b" boundary=BB\r\nContent-Length: 8\r\n\r\n--BB--\r\n", b""), "req", None)
+    P["req-auth-digest-junk"] = (lambda k: (REQ_HEAD % b"" + b"Authorization: Digest " + b"x=\"y\"," * k + b" username=\"u\"\r\n\r\n", b""), "req", None)
     P["res-identity-body"] = (lambda k: (rq, RES + b"Content-Length: %d\r\n\r\n" % (8 * k) + b"abcdefgh" * k), "res", None)
     return P
 
